@@ -350,7 +350,7 @@ func shards(tier string) []string {
 			}
 			out = append(out, fmt.Sprintf("%s/%s/0", t.key(), sp))
 		}
-		out = append(out, fmt.Sprintf("%s/many-parts/0", t.key()))
+		out = append(out, fmt.Sprintf("%s/many-parts/0", t.key()), fmt.Sprintf("%s/related/0", t.key()))
 	}
 	return out
 }
@@ -407,6 +407,44 @@ func run(c *core.Ctx) {
 	}
 	mk := func(chain ...string) Input { return Input{Type: t.Name, FD: t.FD, Chain: chain} }
 	switch sp[1] {
+	case "related":
+		// numbers that are related as texts - one a prefix or a suffix of another (1, 12, 2, 20, 201,
+		// 15, 5), equal as numbers but written differently (1.5, 1.50; 2.50 below one fraction digit)
+		// - as bounds of a parent and of a restriction of it, all pairs, run one after the other in
+		// one process in two orders: what a reader keeps under a key built from these texts collides
+		// here if it ever does
+		toks := []string{"1", "2", "4", "5", "6", "10", "12", "15", "20", "25", "64", "100", "201"}
+		if t.FD > 0 {
+			toks = nil
+			for _, x := range []string{"1", "1.5", "1.50", "1.57", "2", "2.5", "2.50", "12", "12.5", "15", "20", "20.1", "0.1", "0.100"} {
+				if i := strings.IndexByte(x, '.'); i < 0 || len(x)-i-1 <= t.FD+1 {
+					toks = append(toks, x)
+				}
+			}
+		}
+		var ranges, children []string
+		for i, a := range toks {
+			children = append(children, a, ".."+a, a+"..")
+			for _, b := range toks[i:] {
+				if bi2, ok1 := new(big.Rat).SetString(a); ok1 {
+					if bj, ok2 := new(big.Rat).SetString(b); ok2 && bi2.Cmp(bj) <= 0 {
+						ranges = append(ranges, a+".."+b)
+					}
+				}
+			}
+		}
+		children = append(children, ranges...)
+		for pass := 0; pass < 2; pass++ {
+			for i := range ranges {
+				par := ranges[i]
+				if pass == 1 {
+					par = ranges[len(ranges)-1-i]
+				}
+				for _, ch := range children {
+					one(mk(par, ch))
+				}
+			}
+		}
 	case "many-parts":
 		// restrictions of n single-value parts for every n up to 40 (thorough 80): all good, or with
 		// the first, middle or last part malformed, out of order, or outside the type; also as a
